@@ -61,6 +61,9 @@ func genC16(r *kernel.Rand, sc *kernel.Scenario, tier string, run int, exhaustiv
 			}
 		}
 		sc.Faults = append(sc.Faults, kernel.St("readto", "every", []int{0, 1, 3}[run%3], "seed", int64(r.Uint64()>>2)))
+		if run%2 == 0 {
+			sc.Faults = append(sc.Faults, kernel.St("interleave", "seed", int64(r.Uint64()>>2)))
+		}
 		for ser := 0; ser < 2; ser++ {
 			sc.Faults = append(sc.Faults, kernel.St("part", "kind", "one", "ser", ser),
 				kernel.St("part", "kind", "writes", "ser", ser), kernel.St("part", "kind", "split-enum", "ser", ser, "seed", int64(r.Uint64()>>2)))
@@ -103,6 +106,13 @@ func genC16(r *kernel.Rand, sc *kernel.Scenario, tier string, run int, exhaustiv
 		// it never returns another envelope and never asks for bytes that were
 		// not sent
 		sc.Faults = append(sc.Faults, kernel.St("readto", "every", []int{0, 1, 3, 7, 64}[r.Intn(5)], "seed", int64(r.Uint64()>>2)))
+	}
+	if kernel.NewRand(kernel.Derive(r.Uint64(), "interleave")).Bool(0.4) {
+		// two connections of one process: while a Recv on one connection waits
+		// in the middle of its stream (at every offset of short streams, the
+		// first bytes of every frame and sampled offsets of long ones), another
+		// connection receives other envelopes; both get exactly what was sent
+		sc.Faults = append(sc.Faults, kernel.St("interleave", "seed", int64(r.Uint64()>>2)))
 	}
 	for ser := 0; ser < 2; ser++ {
 		sc.Faults = append(sc.Faults,
@@ -285,6 +295,92 @@ func recvWithTimeout(ser int, data []byte, writes []int, s Schedule, at int, ref
 		c := guarded(func() (any, error) { return encodeNative(kinds[0], o.v.(*wire.Envelope)) })
 		if c.paniced || c.err != nil || !bytes.Equal(c.v.([]byte), ref[i]) {
 			return "C16.read-timeout-desync@" + serNames[ser] + "/wrong-envelope", fmt.Sprintf("Recv %d returned an envelope that differs from the %d-th envelope sent", i, i)
+		}
+	}
+	return "", ""
+}
+
+// gatedEnd is a connection on which the bytes from offset at on arrive only
+// when the gate is opened; reached is closed when the reader stands there.
+type gatedEnd struct {
+	*End
+	at               int
+	passed           bool
+	reached, release chan struct{}
+}
+
+func (g *gatedEnd) Read(p []byte) (int, error) {
+	if !g.passed && len(p) > 0 && g.End.Pos() == g.at {
+		g.passed = true
+		close(g.reached)
+		<-g.release
+	}
+	return g.End.Read(p)
+}
+
+// recvInterleaved receives the stream on connection A, whose bytes from
+// offset at on arrive late; while A's Recv waits there, connection B (same
+// process, same serializer value) receives bdata completely. Both
+// connections must get exactly the envelopes that were sent on them.
+func recvInterleaved(ser int, data []byte, writes []int, at int, ref [][]byte, bdata []byte, bref [][]byte) (check, detail string) {
+	l := Preload(data, writes)
+	l.B.SetSchedule(Schedule{Cuts: []int{at}})
+	g := &gatedEnd{End: l.B, at: at, reached: make(chan struct{}), release: make(chan struct{})}
+	conn := wirenet.NewIoConn(g, serializers[ser])
+	type result struct {
+		got [][]byte
+		at  int
+		err error
+	}
+	done := make(chan result, 1)
+	go func() {
+		var r result
+		r.at = -1
+		for i := range ref {
+			o := guarded(func() (any, error) { return conn.Recv() })
+			if o.paniced {
+				r.at, r.err = i, fmt.Errorf("panic in %s: %v", o.site, o.pval)
+				break
+			}
+			if o.err != nil {
+				r.at, r.err = i, o.err
+				break
+			}
+			c := guarded(func() (any, error) { return encodeNative(kinds[0], o.v.(*wire.Envelope)) })
+			if c.paniced || c.err != nil {
+				r.at, r.err = i, fmt.Errorf("the received envelope cannot be encoded again")
+				break
+			}
+			r.got = append(r.got, c.v.([]byte))
+		}
+		done <- r
+	}()
+	var ra result
+	early := false
+	select {
+	case <-g.reached:
+	case ra = <-done:
+		early = true // (A failed before it reached the offset: judged below)
+	}
+	gb, _, bat, berr, _ := recvAll(ser, bdata, nil, Schedule{}, len(bref))
+	if !early {
+		close(g.release)
+		ra = <-done
+	}
+	if berr != nil {
+		return "C16.interleaved-connections@" + serNames[ser] + "/decode-error", fmt.Sprintf("the other connection could not decode its envelope %d: %v", bat, berr)
+	}
+	for i := range bref {
+		if !bytes.Equal(gb[i], bref[i]) {
+			return "C16.interleaved-connections@" + serNames[ser] + "/wrong-envelope", fmt.Sprintf("the other connection received an envelope %d that differs from the one sent on it", i)
+		}
+	}
+	if ra.err != nil {
+		return "C16.interleaved-connections@" + serNames[ser] + "/decode-error", fmt.Sprintf("the waiting connection could not decode its envelope %d: %v", ra.at, ra.err)
+	}
+	for i := range ref {
+		if !bytes.Equal(ra.got[i], ref[i]) {
+			return "C16.interleaved-connections@" + serNames[ser] + "/wrong-envelope", fmt.Sprintf("the waiting connection received an envelope %d that differs from the one sent on it", i)
 		}
 	}
 	return "", ""
@@ -517,6 +613,53 @@ func (Engine) execC16(sc *kernel.Scenario, res *kernel.Result, trace bool) {
 					logf("VIOLATION %s: %s", check, res.Violation.Detail)
 					ex := *sc
 					ex.Faults = []kernel.Step{kernel.St("readto", "every", f.Int("every"), "at", at)}
+					res.Explicit = &ex
+					return
+				}
+			}
+			kernel.Progress()
+		}
+		for fi := range sc.Faults {
+			f := &sc.Faults[fi]
+			if f.Op != "interleave" || len(vals) < 2 {
+				continue
+			}
+			// the other connection carries the same envelopes in another order
+			// (rotated by one), so that at no moment the two streams hold the
+			// same bytes at the same place
+			var bdata []byte
+			var bref [][]byte
+			for k := 1; k <= len(vals); k++ {
+				i := k % len(vals)
+				bdata = append(bdata, data[prevEnd(frameEnds, i):frameEnds[i]]...)
+				bref = append(bref, ref[i])
+			}
+			var offs []int
+			if f.Has("at") {
+				offs = []int{1 + modLen(f.Int("at"), len(data)-1)}
+			} else if len(data) <= enumMaxBytes {
+				for at := 1; at < len(data); at++ {
+					offs = append(offs, at)
+				}
+			} else {
+				rr := kernel.NewRand(kernel.Derive(uint64(f.Int("seed")), "interleave"))
+				for i := range frameEnds {
+					for k := 1; k < 64 && prevEnd(frameEnds, i)+k < frameEnds[i]; k++ {
+						offs = append(offs, prevEnd(frameEnds, i)+k)
+					}
+				}
+				for i := 0; i < 64; i++ {
+					offs = append(offs, 1+rr.Intn(len(data)-1))
+				}
+			}
+			for _, at := range offs {
+				res.Count("fault.recv-interleaved-with-another-connection", 1)
+				res.Evals++
+				if check, detail := recvInterleaved(ser, data, writes, at, ref, bdata, bref); check != "" {
+					res.Fail(fi, check, "a Recv waited at offset %d of %d while another connection received %d envelopes: %s", at, len(data), len(bref), detail)
+					logf("VIOLATION %s: %s", check, res.Violation.Detail)
+					ex := *sc
+					ex.Faults = []kernel.Step{kernel.St("interleave", "at", at-1)}
 					res.Explicit = &ex
 					return
 				}
